@@ -116,6 +116,16 @@ func (h *Handle) Field(base ssa.Value, field int, name string, unsigned bool) Li
 	return tvar(t)
 }
 
+// Cell returns the integer content of a field of a local object (alloc) given
+// the path of field indices, e.g. ".3.1".
+func (h *Handle) Cell(alloc ssa.Value, path string) (Lin, bool) {
+	cv, ok := h.S.cells[cellKey{h.Ctx, alloc, path}]
+	if !ok {
+		return Lin{}, false
+	}
+	return asLin(cv)
+}
+
 // Assume adds l <= 0 to the state.
 func (h *Handle) AssumeLE(l Lin) { h.S.addLE(l) }
 
